@@ -1,7 +1,7 @@
 """One function per property: selects engines and workloads, aggregates, writes evidence."""
 import time
 
-from . import c16, core, sets, vec
+from . import c16, c17, core, sets, vec
 
 ASSUME_SAN = ["ASan/UBSan/LSan red zones: an overrun that lands inside another live object is only seen through the value/ledger oracles",
               "harness element types and allocators (harness/mon) are correct", "g++ 12 / libstdc++ std::vector and std::set as reference models"]
@@ -243,6 +243,65 @@ def c16_check(tier):
                        ["g++ 12 only (one compiler) for the build matrix", "UBSan in every build so that identical output by luck of undefined behaviour is not accepted"], min_evals=100)
 
 
+def c17_check(tier):
+    t0 = time.time()
+    cov, viols, inc = c17.run(tier)
+    return core.finish("C17", tier, "other", cov, viols, inc, t0,
+                       ["the property is decided by the compiler; the probe only prints the constants the compiler computed", "x86-64, sizeof(void*) == 8",
+                        "the oracle (lib/c17.py) is written from the property statement and shares no code with amc"], min_evals=500)
+
+
+def c14(tier):
+    """relocation by raw byte copy at random quiescent points of the histories; a failing history is attributed to C14 only if the
+    same history passes without the relocations (differential), otherwise it is another property's defect"""
+    t0 = time.time()
+    runs = []
+    runs.append(("vh_", vec.run("C14", tier, extra_args=["--reloc"], hist_quick=200, hist_thorough=2000, any_prop=True), 80))
+    fcfgs = [c for c in sets.flatset_cfgs(tier) if c.under != "std" and (c.elem != "NTR" or c.under == "v")]
+    runs.append(("", sets.run_engine("C14", tier, fcfgs, 200, 2000, extra_args=["--reloc"], any_prop=True), 60))
+    scfgs = [c for c in sets.SS_HIST_QUICK + (sets.SS_HIST_THOROUGH if tier == "thorough" else []) if c.backing == "flat" and c.elem != "NTR"]
+    runs.append(("", sets.run_engine("C14", tier, scfgs, 200, 2000, ops=80, extra_args=["--reloc"], any_prop=True), 80))
+    cov = None
+    viols, inc = [], []
+    foreign = 0
+    for prefix, (c, v, i), ops in runs:
+        cov = c if cov is None else sets.merge_cov(cov, c)
+        inc += i
+        seen = set()
+        for x in v:
+            if x.get("monitor", "").startswith("reloc."):
+                viols.append(x)
+                continue
+            hk = (x["cfg"], x.get("hist"))
+            if hk in seen or x.get("hist") is None:
+                continue
+            seen.add(hk)
+            b = core.find_binary([prefix + x["cfg"]])
+            if b is None:
+                inc.append({"why": "binary for %s not found" % x["cfg"]})
+                continue
+            r = core.run_history_range(b, x["cfg"], x["seed"], int(x["hist"]), int(x["hist"]) + 1, ["--ops", str(ops)], 600, 2)
+            if r["viols"] or r["crashes"]:
+                foreign += 1   # fails without any relocation as well: not a relocatability defect
+            else:
+                x = dict(x)
+                x["key"] = "after-relocation:" + x["key"]
+                x["detail"] = "history passes without relocations, fails with them: " + str(x.get("detail"))
+                viols.append(x)
+    # the static side: no container claims the trait when a part is not relocatable (rows of the C17 probe about relocatability)
+    c17cov, c17v, c17i = c17.run(tier)
+    for x in c17v:
+        if "trivially_relocatable" in x["detail"] or " tr " in x["detail"] or "relocatable" in x["detail"]:
+            viols.append(x)
+    cov["static_trait_rows"] = c17cov["evaluations"]
+    cov["histories_failing_also_without_relocation"] = foreign
+    cov["rule"] = ("random histories (vector pools, FlatSet pools, FlatSet-backed SmallSet pools) over container types that declare themselves trivially relocatable; "
+                   "at random quiescent points a container is moved by memcpy to a fresh block, the old block is poisoned and freed, and the history goes on with "
+                   "the copy under all monitors; differential attribution: the same history is re-run without relocations. Static side: the trait of every "
+                   "container type of the C17 matrix equals the conjunction of its parts. observed.relocations = byte relocations performed")
+    return core.finish("C14", tier, "exploration", cov, viols, inc, t0, ASSUME_SAN, min_evals=1000)
+
+
 def all_quick_specs():
     cfgs = (list(vec.QUICK) + sets.FS_QUICK + sets.SS_SPACE_QUICK + sets.SS_HIST_QUICK + sets.HG_QUICK + sets.COST_QUICK + vec.GROWTH_QUICK +
             vec.ALIAS_QUICK + vec.LIMITS_QUICK + vec.FAULT_QUICK + sets.SETFAULT_QUICK + vec.SWAP2_QUICK + sets.ALGO_QUICK)
@@ -261,4 +320,4 @@ def setup():
 
 EXTRA_SETUP = [lambda: [c16.spec(b) for b in c16.matrix("quick")]]
 
-CHECKS = {"C01": c01, "C02": c02, "C05": c05, "C06": c06, "C07": c07, "C03": c03, "C04": c04, "C11": c11, "C12": c12, "C19": c19, "C18": c18, "C10": c10, "C08": c08, "C09": c09, "C13": c13, "C15": c15, "C16": c16_check}
+CHECKS = {"C01": c01, "C02": c02, "C05": c05, "C06": c06, "C07": c07, "C03": c03, "C04": c04, "C11": c11, "C12": c12, "C19": c19, "C18": c18, "C10": c10, "C08": c08, "C09": c09, "C13": c13, "C15": c15, "C16": c16_check, "C17": c17_check, "C14": c14}
